@@ -483,6 +483,7 @@ def run_shard(shard: int, nshards: int, seed: int, tier: str) -> ShardResult:
     res.count("cross_process_pairs", len(items) * len(hs))
     for spec_json, _ in items:
         res.nontrivial.add("xproc:" + spec_hash(json.loads(spec_json)))
+        res.evaluations += 1          # (the cross-process comparison)
     for spec_json, hs, msg in bad:
         res.fail(_xproc_failure(json.loads(spec_json), hs, msg),
                  {"spec": json.loads(spec_json), "picks": [],
